@@ -395,9 +395,9 @@ def bpCandidates (ls : List String) : List (Nat × Option Name) :=
 def showEnum (l : List (Nat × Name)) : List String := l.map fun p => s!"{p.1} {bytesHex p.2}"
 
 /-- the implementation's enumeration must be the one the description prescribes -/
-def judgeEnum (kind : String) (rest : List String) (en : List EnumItem) : Option String :=
+def judgeEnum (kind : String) (o : ObjOps) (rest : List String) (en : List EnumItem) : Option String :=
   let expected : Option (List (Nat × Name)) :=
-    if kind = "obj" then some (bestPerAddress (objCandidates (parseObj rest)))
+    if kind = "obj" then some (bestPerAddress (objCandidates o))
     else if kind = "bp" then some (bestPerAddress (bpCandidates rest))
     else if kind = "jit" then some (jitExpectedEnum rest)
     else none
@@ -423,6 +423,52 @@ def judgeExtent (ends : List Nat) (al : AnsLine) : Option String :=
     | _ => none
   | _ => none
 
+/-- which relative address a lookup address stands for, from the description (generated kinds); fixtures:
+the claim on the query line, computed by the harness from the file's program headers -/
+def objClaim (o : ObjOps) (q : Query) : Claim :=
+  let base := o.base
+  let ofSvma (s : Nat) : Claim :=
+    if s + 1 = U64 then .xwf else
+    match relOf base s with
+    | some r => .rel r
+    | none => .none
+  if q.form = "r" then
+    (if U64 ≤ base + q.addr then .none else if base + q.addr + 1 = U64 then .xwf else .rel q.addr)
+  else if q.form = "s" then ofSvma q.addr
+  else
+    let rec go : List SymList.Range → Claim
+      | [] => .none
+      | r :: rs =>
+        if r.fileOffset ≤ q.addr then
+          if U64 ≤ r.fileOffset + r.size then .xwf
+          else if q.addr < r.fileOffset + r.size then
+            (if U64 ≤ r.svma + (q.addr - r.fileOffset) then .none else ofSvma (r.svma + (q.addr - r.fileOffset)))
+          else go rs
+        else go rs
+    go (rangesOf o)
+
+def jitClaim (entries : List JitDump.Entry) (q : Query) : Claim :=
+  if q.form = "r" then .rel q.addr else if q.form = "s" then .none else
+  let rec go : List JitDump.Entry → Nat → Claim
+    | [], _ => .none
+    | e :: es, cum =>
+      if e.codeOff ≤ q.addr ∧ q.addr < e.codeOff + e.len then .rel (cum + (q.addr - e.codeOff)) else go es (cum + e.len)
+  go entries 0
+
+def claimOf (kind : String) (o : ObjOps) (jes : List JitDump.Entry) (q : Query) : Claim :=
+  if kind = "obj" then objClaim o q
+  else if kind = "jit" then jitClaim jes q
+  else if kind = "bp" then (if q.form = "r" then .rel q.addr else .none)
+  else q.claim
+
+/-- loading is outside the hypotheses: an exported (defined dynamic) symbol below the base, or an FDE whose
+end does not fit `u64` -/
+def loadXwf (kind : String) (o : ObjOps) : Bool :=
+  if kind = "obj" then
+    let defs := o.syms.filter fun s => s.dyn && s.isDefinition
+    !(fdeSafe o) || (defs.all (·.name.isSome) && defs.any fun s => s.value < o.base)
+  else false
+
 def judge (ops impl : List String) : Bool × String :=
   match ops with
   | [] => (false, "bad-op")
@@ -430,16 +476,18 @@ def judge (ops impl : List String) : Bool × String :=
     let kw := words k
     let fixture := kw.take 2 = ["kind", "fixture"]
     let checkNames := !(fixture ∧ kw.getD 2 "" = "pdb")
-    let qs := queriesOf rest
+    let kind := kw.getD 1 ""
+    let o : ObjOps := if kind = "obj" then parseObj rest else {}
+    let jes := if kind = "jit" then jitEntries rest else []
+    let qs := (queriesOf rest).map fun q => { q with claim := claimOf kind o jes q }
     if impl = ["panic"] then
-      (if rest.contains "xwf-load" then (true, "ok") else (false, "[load-panic] loading panicked"))
+      (if loadXwf kind o then (true, "ok") else (false, "[load-panic] loading panicked"))
     else
     let en := impl.filterMap parseIt
     let als := impl.filterMap parseAnsLine
     if als.length ≠ qs.length then (false, s!"{als.length} answer lines for {qs.length} queries") else
-    let kind := kw.getD 1 ""
-    let ends := if kind = "obj" then objKnownEnds (parseObj rest) else []
-    match judgeEnum kind rest en with
+    let ends := if kind = "obj" then objKnownEnds o else []
+    match judgeEnum kind o rest en with
     | some why => (false, why)
     | none =>
     match (qs.zip als).findSome? (fun p => (judgeQuery checkNames en p.1 p.2).orElse fun _ => judgeExtent ends p.2) with
